@@ -37,6 +37,7 @@ var checks = map[string]func(*vk.Run){
 	"C18": abiref.RunC18,
 	"C04": meas.RunC04,
 	"C05": meas.RunC05,
+	"C07": pars.RunC07,
 	"C08": pars.RunC08,
 }
 
